@@ -736,6 +736,7 @@ def _mono_fn(name, x, domain_pos):
     Monotonicity/injectivity is instantiated against all previous
     applications on this path (DESIGN 2.2)."""
     ctx = core.current()
+    ctx.uf_used = True
     f = _uf(name)
     key = "_apps_" + name
     apps = ctx.__dict__.setdefault(key, [])
